@@ -98,6 +98,8 @@ func Leaves(level int) []Leaf {
 	add("enum-bool", "enum", J{"enum": A{true}}, nil, false)
 	add("enum-null", "enum", J{"enum": A{nil}}, nil, false)
 	add("enum-mixed", "enum", J{"enum": A{"a", 1, nil, true}}, nil, false)
+	add("enum-str-null", "enum", J{"enum": A{"a", "b", nil}}, nil, false)
+	add("enum-int-null", "enum", J{"enum": A{1, 2, nil}}, nil, false)
 	add("array-str", "array", J{"type": "array", "items": J{"type": "string"}}, A{"x", "y"}, true)
 	add("array-int-lim", "array", J{"type": "array", "items": J{"type": "integer"}, "minItems": 1, "maxItems": 3}, A{1, 2}, true)
 	add("array-noitems", "array", J{"type": "array"}, nil, true)
